@@ -45,6 +45,7 @@ ASSUMPTIONS = [phys.POSITIVITY_TEXT,
                "the documented law is the transcription in /verif/ppsa/spec/laws.py (pipe_component.rst, Eberhard 1990, Cerbe 2008)",
                "numpy elementwise semantics of the operators used in the kernels"]
 TECHNIQUE = "value numbering of kernels and of the whole derivative calculation into rational normal forms, compared with a transcribed specification; symbolic differentiation; writer/reader table agreement"
+EXPLANATION += (' ' + '(R2.11, shared with C06 R6.2) the per-pipe means of sectioned pipes (lambda, reynolds, mean velocity, friction loss) divide sums by counts in the same (sorted-label) order and are placed through the same permutation.')
 
 P_FROM, P_TO = Poly.sym("p_init_i_abs"), Poly.sym("p_init_i1_abs")
 DH, RHO, RHON = Poly.sym("height_difference"), Poly.sym("rho"), Poly.sym("rho_n")
